@@ -23,6 +23,8 @@ Inductive obs :=
 | OList (l : list item)
 | OLen (n : Z)
 | OPanic
+| OStuck                                  (* the call never returned: it was found parked on the wrapper's own lock with no
+                                             other call in flight; equal to no outcome, not even to itself: no model step gives it *)
 | OSnap (l : list (option (list item * Z))).   (* per handle: nil, or (everything Ascend delivers, Len) *)
 
 Fixpoint snap_eqb (x y : list (option (list item * Z))) : bool :=
